@@ -22,27 +22,47 @@ Qed.
 Lemma firstn_nonempty : forall (l : bytes) k, (0 < k)%nat -> (k <= length (firstn k l))%nat -> firstn k l <> [].
 Proof. intros l k H1 H2 E. rewrite E in H2. cbn in H2. lia. Qed.
 
-Theorem read_block_np : forall file off b, np (read_block dec file off b).
+Lemma pre_check_none : forall file off b, pre_check file off b = None ->
+  cb_raw b <> 0 /\ exists f, file = Some f /\ (cb_enc b <> 1 -> cb_len b <> 0).
 Proof.
-  intros file off b. unfold read_block.
-  destruct (cb_raw b =? 0) eqn:R0; [apply np_ok|].
-  destruct file as [f|]; [|apply np_err].
-  destruct (_ || _); [apply np_err|].
-  destruct ((cb_enc b =? 1) && negb (cb_raw b =? cb_len b)); [apply np_err|].
-  destruct (negb (cb_enc b =? 1) && (max_raw (cb_enc b) (cb_len b) <? cb_raw b)) eqn:G; [apply np_err|].
-  apply np_bind; [apply reslice_np|]. intros _ _.
+  intros file off b H. unfold pre_check in H.
+  destruct (cb_raw b =? 0) eqn:R0; [discriminate|]. apply N.eqb_neq in R0. split; [assumption|].
+  destruct file as [f|]; [|discriminate]. exists f. split; [reflexivity|].
+  destruct (_ || _); [discriminate|].
+  destruct ((cb_enc b =? 1) && negb (cb_raw b =? cb_len b)); [discriminate|].
+  destruct (negb (cb_enc b =? 1) && (max_raw (cb_enc b) (cb_len b) <? cb_raw b)) eqn:G; [discriminate|].
+  intros E1. apply N.eqb_neq in E1. rewrite E1 in G. cbn [negb] in G. rewrite andb_true_l in G.
+  unfold max_raw in G. destruct (cb_enc b =? 3); apply N.ltb_ge in G; lia.
+Qed.
+
+(* decoding never panics, wherever the file is positioned *)
+Lemma read_body_np : forall f pos b, (cb_enc b <> 1 -> cb_len b <> 0) -> np (fst (read_body dec f pos b)).
+Proof.
+  intros f pos b Hlen. unfold read_body.
+  pose proof (reslice_np (cb_raw b)) as R1. destruct (reslice buf_cap (cb_raw b)); [|apply np_err | contradiction R1; reflexivity].
   destruct (cb_enc b =? 1) eqn:E1.
-  - destruct (_ <? _)%nat; [apply np_err | apply np_ok].
-  - destruct ((cb_enc b =? 2) || (cb_enc b =? 3)); [|apply np_err].
-    apply np_bind; [apply reslice_np|]. intros _ _.
-    destruct (length (firstn (N.to_nat (cb_len b)) (skipn (N.to_nat off) f)) <? N.to_nat (cb_len b))%nat eqn:L; [apply np_err|].
-    assert (Hlen : cb_len b <> 0).
-    { cbn [negb] in G. rewrite andb_true_l in G. unfold max_raw in G. clear L. apply N.eqb_neq in R0.
-      destruct (cb_enc b =? 3); apply N.ltb_ge in G; lia. }
-    destruct (firstn (N.to_nat (cb_len b)) (skipn (N.to_nat off) f)) eqn:F.
+  - destruct (_ <? _)%nat; cbn [fst]; [apply np_err | apply np_ok].
+  - destruct ((cb_enc b =? 2) || (cb_enc b =? 3)); cbn [fst]; [|apply np_err].
+    pose proof (reslice_np (cb_len b)) as R2. destruct (reslice buf_cap (cb_len b)); cbn [fst]; [|apply np_err | contradiction R2; reflexivity].
+    destruct (length (firstn (N.to_nat (cb_len b)) (skipn (N.to_nat pos) f)) <? N.to_nat (cb_len b))%nat eqn:L; cbn [fst]; [apply np_err|].
+    apply N.eqb_neq in E1. specialize (Hlen E1).
+    destruct (firstn (N.to_nat (cb_len b)) (skipn (N.to_nat pos) f)) eqn:F; cbn [fst].
     + exfalso. cbn [length] in L. lia.
     + destruct (dec _ _ _) as [out|]; [|apply np_err].
       destruct (N.of_nat (length out) =? cb_raw b); [apply np_ok | apply np_err].
+Qed.
+
+Theorem read_block_st_np : forall st file off b, np (fst (read_block_st dec st file off b)).
+Proof.
+  intros st file off b. unfold read_block_st. destruct (pre_check file off b) as [r|] eqn:P; cbn [fst].
+  - unfold pre_check in P. destruct (cb_raw b =? 0); [inversion P; apply np_ok|].
+    destruct file; [|inversion P; apply np_err].
+    destruct (_ || _); [inversion P; apply np_err|].
+    destruct (_ && _); [inversion P; apply np_err|].
+    destruct (_ && _); [inversion P; apply np_err | discriminate].
+  - destruct (pre_check_none _ _ _ P) as (_ & f & -> & Hlen).
+    pose proof (read_body_np f (if snd st =? off then fst st else off) b Hlen) as H.
+    destruct (read_body dec f _ b) as [r p]. exact H.
 Qed.
 
 Lemma In_query_cols : forall q c, In c (query_cols q) -> (c < 8)%nat.
@@ -52,25 +72,31 @@ Proof.
     try (destruct (q_sip q), (q_dip q), (q_proto q), (q_dport q); cbn in H; intuition lia).
 Qed.
 
-Lemma read_col_np : forall d m b c, shaped m -> (b < length (m_blocks m))%nat -> (c < 8)%nat -> np (read_col dec d m b c).
+Lemma read_col_st_np : forall sts d m b c, shaped m -> (b < length (m_blocks m))%nat -> (c < 8)%nat ->
+  np (fst (read_col_st dec sts d m b c)).
 Proof.
-  intros d m b c [S1 S2] Hb Hc. unfold read_col.
-  destruct (nth_res_ok _ c (m_cols m)) as [col Hcol]; [lia|]. rewrite Hcol. cbn.
+  intros sts d m b c [S1 S2] Hb Hc. unfold read_col_st.
+  destruct (nth_res_ok _ c (m_cols m)) as [col Hcol]; [lia|]. rewrite Hcol.
   assert (Hl : length (col_blocks col) = length (m_blocks m)).
   { rewrite Forall_forall in S2. apply S2. unfold nth_res in Hcol.
     destruct (nth_error (m_cols m) c) eqn:E; [|discriminate]. inversion Hcol; subst. eapply nth_error_In; eassumption. }
-  destruct (nth_res_ok _ b (col_blocks col)) as [blk Hblk]; [lia|]. rewrite Hblk. cbn.
+  destruct (nth_res_ok _ b (col_blocks col)) as [blk Hblk]; [lia|]. rewrite Hblk.
   destruct (nth_res_ok _ b (col_offsets col)) as [off Hoff]; [unfold col_offsets; rewrite col_offsets_from_length; lia|].
-  rewrite Hoff. cbn. apply read_block_np.
+  rewrite Hoff.
+  pose proof (read_block_st_np (st_of sts c) (match nth_error (d_cols d) c with Some f => f | None => None end) off blk) as H.
+  destruct (read_block_st dec _ _ off blk) as [r st']. exact H.
 Qed.
 
-Lemma read_cols_np : forall d m b cs, shaped m -> (b < length (m_blocks m))%nat ->
-  (forall c, In c cs -> (c < 8)%nat) -> np (read_cols dec d m b cs).
+Lemma read_cols_st_np : forall d m b cs sts, shaped m -> (b < length (m_blocks m))%nat ->
+  (forall c, In c cs -> (c < 8)%nat) -> np (fst (read_cols_st dec sts d m b cs)).
 Proof.
-  intros d m b cs S Hb. induction cs as [|c cs IH]; intros Hc; cbn; [apply np_ok|].
-  pose proof (read_col_np d m b c S Hb (Hc c (or_introl eq_refl))) as H.
-  destruct (read_col dec d m b c); [|apply np_ok | contradiction H; reflexivity].
-  apply np_bind; [apply IH; intros; apply Hc; right; assumption|]. intros; apply np_ok.
+  intros d m b cs. induction cs as [|c cs IH]; intros sts S Hb Hc; cbn; [apply np_ok|].
+  pose proof (read_col_st_np sts d m b c S Hb (Hc c (or_introl eq_refl))) as H.
+  destruct (read_col_st dec sts d m b c) as [x sts1]. cbn [fst] in H.
+  destruct x; [|apply np_ok | contradiction H; reflexivity].
+  pose proof (IH sts1 S Hb (fun c0 H0 => Hc c0 (or_intror H0))) as H2.
+  destruct (read_cols_st dec sts1 d m b cs) as [o sts2]. cbn [fst] in *.
+  apply np_bind; [assumption|]. intros; apply np_ok.
 Qed.
 
 (* ------------------------------------------------------------------ the evaluation loop *)
@@ -120,24 +146,32 @@ Proof.
   destruct (nth_res_ok _ i l) as [v Hv]; [lia|]. rewrite Hv. apply np_ok.
 Qed.
 
-Theorem eval_block_np : forall q w dts d m b bi, shaped m -> (b < length (m_blocks m))%nat ->
-  np (eval_block dec q w dts d m b bi).
+Lemma decide_np : forall q ts nv4 rc, np rc -> np (decide q ts nv4 rc).
 Proof.
-  intros q w dts d m b bi S Hb. unfold eval_block.
-  destruct (_ || _)%Z; [apply np_ok|].
-  destruct (negb _); [apply np_ok|].
-  pose proof (read_cols_np d m b (query_cols q) S Hb (In_query_cols q)) as H.
-  destruct (read_cols dec d m b (query_cols q)) as [[cols|]| |]; [|apply np_ok | apply np_ok | contradiction H; reflexivity].
-  destruct (checks_ok q cols (t_v4 (bi_traffic bi))) eqn:C; cbn [negb]; [|apply np_ok].
+  intros q ts nv4 rc H. unfold decide.
+  destruct rc as [[cols|]| |]; [|apply np_ok | apply np_ok | contradiction H; reflexivity].
+  destruct (checks_ok q cols nv4) eqn:C; cbn [negb]; [|apply np_ok].
   apply np_bind; [|intros; apply np_ok].
   apply np_map_res. intros i Hi. apply in_seq in Hi. apply row_at_np; [assumption | lia].
 Qed.
 
-Lemma eval_blocks_np : forall q w dts d m bis b, shaped m -> (b + length bis <= length (m_blocks m))%nat ->
-  np (eval_blocks dec q w dts d m b bis).
+Theorem eval_block_st_np : forall sts q w dts d m b bi, shaped m -> (b < length (m_blocks m))%nat ->
+  np (fst (eval_block_st dec sts q w dts d m b bi)).
 Proof.
-  intros q w dts d m bis. induction bis as [|bi r IH]; intros b S H; cbn; [apply np_ok|].
-  cbn in H. apply np_bind; [apply eval_block_np; [assumption | lia]|]. intros x _.
+  intros sts q w dts d m b bi S Hb. unfold eval_block_st.
+  destruct (_ || _)%Z; [apply np_ok|].
+  destruct (negb _); [apply np_ok|].
+  pose proof (read_cols_st_np d m b (query_cols q) sts S Hb (In_query_cols q)) as H.
+  destruct (read_cols_st dec sts d m b (query_cols q)) as [rc sts']. cbn [fst] in *. apply decide_np; assumption.
+Qed.
+
+Lemma eval_blocks_st_np : forall q w dts d m bis b sts, shaped m -> (b + length bis <= length (m_blocks m))%nat ->
+  np (eval_blocks_st dec sts q w dts d m b bis).
+Proof.
+  intros q w dts d m bis. induction bis as [|bi r IH]; intros b sts S H; cbn; [apply np_ok|].
+  cbn in H. pose proof (eval_block_st_np sts q w dts d m b bi S ltac:(lia)) as H1.
+  destruct (eval_block_st dec sts q w dts d m b bi) as [x sts']. cbn [fst] in H1.
+  apply np_bind; [assumption|]. intros x0 _.
   apply np_bind; [apply IH; [assumption | lia]|]. intros; apply np_ok.
 Qed.
 
@@ -147,7 +181,7 @@ Proof.
   pose proof (open_day_np fs (fst it) (snd it)) as H.
   destruct (open_day fs (fst it) (snd it)) as [[d m]| |] eqn:E; [|apply np_ok | contradiction H; reflexivity].
   apply np_bind; [|intros; apply np_ok].
-  apply eval_blocks_np; [eapply open_day_shaped; eassumption | lia].
+  apply eval_blocks_st_np; [eapply open_day_shaped; eassumption | lia].
 Qed.
 
 (* c06_no_panic: for ALL codecs, ALL queries (attribute selections, time ranges) and ALL file-system states (all
